@@ -66,7 +66,7 @@ package wcwidth
 //@ func Trim
 //@   props C34
 //@   pure
-//@   requires 0 <= wmax && wmax < 4294967296
+//@   requires 0 <= wmax && wmax < 4611686018427387904
 //@   apply pw_zero(s)
 //@   loop 1 apply pw_step(s, range_pos)
 //@   loop 1 apply ofrune_range(r)
